@@ -22,7 +22,7 @@ ASSUMPTIONS = [
     "coverage and exclusivity by R3 (vf/ref/acl.py); cases where the ideal coverage and the implementation's documented winner rule disagree (known findings of C06) are skipped and counted",
     "programs yield rows in negated form only in the dedicated scenario (a negated line owned literally by one generator and through its positive rule by another)",
 ]
-FLOORS = {"quick": {"runs": 1200, "outcome_ok": 300, "outcome_generator_error": 150, "outcome_not_exclusive": 60, "block_contexts_entered": 2000, "annotated_runs": 80, "annotated_rows": 200, "cases_with_a_silent_generator": 300, "cases_with_three_differently_written_rules": 300, "comment_rows_yielded_inside_blocks": 200, "acl_comment_lines": 3000, "rules_mentioning_interface_not_at_start": 4000, "multi_line_yields_all_inside_the_first_line": 500, "cases_with_device_rows_claimed_by_several_generators": 800, "cases_with_a_negated_line_owned_literally_and_through_its_positive_rule": 300, "reused_generator_object_runs": 150},
+FLOORS = {"quick": {"runs": 1200, "outcome_ok": 300, "outcome_generator_error": 150, "outcome_not_exclusive": 60, "block_contexts_entered": 2000, "annotated_runs": 80, "annotated_rows": 200, "cases_with_a_silent_generator": 300, "cases_with_three_differently_written_rules": 300, "comment_rows_yielded_inside_blocks": 200, "acl_comment_lines": 3000, "rules_mentioning_interface_not_at_start": 4000, "multi_line_yields_all_inside_the_first_line": 500, "cases_with_device_rows_claimed_by_several_generators": 800, "cases_with_a_negated_line_owned_literally_and_through_its_positive_rule": 300, "reused_generator_object_runs": 150, "tuple_yields_with_an_inline_list": 500},
           "thorough": {"runs": 50000, "outcome_ok": 12000, "outcome_generator_error": 6000, "outcome_not_exclusive": 2500, "block_contexts_entered": 80000, "annotated_runs": 3000, "annotated_rows": 8000, "cases_with_a_silent_generator": 12000, "cases_with_three_differently_written_rules": 12000, "comment_rows_yielded_inside_blocks": 4000, "acl_comment_lines": 60000, "rules_mentioning_interface_not_at_start": 80000}}
 VENDORS = ["huawei", "cisco", "arista", "nexus"]
 HEADS = ["a", "b", "c", "interface", "router", "x", "ntp source-interface", "c passive-interface"]  # the word `interface` only makes a rule not deletable by default at its start
@@ -49,7 +49,10 @@ def gen_program(rng, depth=0, budget=None):
             out.append(["y", gen_row(rng)])
         elif r < 0.5:
             h, k = rng.choice(HEADS), rng.choice(KEYS)
-            out.append(["t", [h, [k, rng.choice([1, 20, "z"])]]])
+            if rng.random() < 0.3:
+                out.append(["tl", h, rng.sample(KEYS, 2)])  # a tuple holding an inline list: `h [ k1 k2 ]`
+            else:
+                out.append(["t", [h, [k, rng.choice([1, 20, "z"])]]])
         elif r < 0.58:
             a, b, c = gen_row(rng), gen_row(rng), gen_row(rng)
             shape = rng.choice([[[0, a], [1, b], [1, c + " m"], [0, b + " top"]],
@@ -98,6 +101,8 @@ def ref_paths(program, prefix=()):
             out.append(prefix + (st[1],))
         elif k == "t":
             out.append(prefix + (" ".join(str(w) for w in flat(st[1])),))
+        elif k == "tl":
+            out.append(prefix + ("%s [ %s ]" % (st[1], " ".join(st[2])),))
         elif k == "m":
             stack = []
             for d, row in st[1]:
@@ -140,6 +145,9 @@ def make_run(program, counter):
                     yield st[1]
                 elif k == "t":
                     yield tup(st[1])
+                elif k == "tl":
+                    from annet.generators import ParamsList
+                    yield st[1], ParamsList(st[2])
                 elif k == "m":
                     body = "\n".join("  " * d + row for d, row in st[1])
                     if len(st) > 2 and st[2] == "quoted":
@@ -194,6 +202,8 @@ def acl_for(rng, paths, mode, shared_rows=()):
 
     def pat_of(row, leaf):
         w = row.split()
+        if "[" in row:
+            return w[0] + " ~"  # (brackets are regex syntax in a rule text: such rows are covered by a prefix rule)
         r = rng.random()
         if len(w) > 1 and r < 0.3:
             return " ".join(w[:-1] + ["*"])
@@ -458,6 +468,7 @@ def check_case(seed, acc, silent=False, ranked=False, negx=False):
     except Exception as e:
         got = ("exception", "%s: %s" % (type(e).__name__, str(e)[:200]))
     acc.count("runs")
+    acc.count("tuple_yields_with_an_inline_list", sum(1 for g in gens for st in iter_stmts(g["program"]) if st[0] == "tl"))
     acc.count("multi_line_yields_all_inside_the_first_line", sum(1 for g in gens for st in iter_stmts(g["program"]) if st[0] == "m" and all(d > 0 for d, _ in st[1][1:])))
     acc.count("comment_rows_yielded_inside_blocks", sum(g.get("comments", 0) for g in gens))
     acc.count("acl_comment_lines", sum(1 for t in texts for ln in t.split("\n") if ln.strip().startswith("#")))
